@@ -3,6 +3,7 @@ CONSTANTS
   Family = "M3"
   Depth = 3
   RndN = 5
+  Mutators = TRUE
   RndK = 4
 INVARIANT TypeOK
 INVARIANT Emit
